@@ -59,6 +59,16 @@ typedef enum {
   TK_EOF,     // End-of-file markers
 } TokenKind;
 
+// A #line directive. It renumbers (and renames) the lines that follow
+// it in its file, up to the next such directive.
+typedef struct LineMarker LineMarker;
+struct LineMarker {
+  LineMarker *next;   // The previous #line directive of the same file
+  int line_no;        // Physical line of the directive
+  int line_delta;
+  char *display_name;
+};
+
 typedef struct {
   char *name;
   int file_no;
@@ -67,6 +77,7 @@ typedef struct {
   // For #line directive
   char *display_name;
   int line_delta;
+  LineMarker *markers; // Most recent first
 
   // #include nesting depth of this file (0 for the main file)
   int incl_depth;
